@@ -85,6 +85,15 @@ func (a *App) behave(ctx context.Context, call *CallState, rpc string, req proto
 	case "mock":
 		svc := strings.SplitN(rpc, "/", 2)[0]
 		m := a.Mocks[svc]
+		if a.k.Plan.FreshMock {
+			// every request builds a mock of its own (parallel test cases that each construct
+			// their mock): construction runs in this handler task, next to requests in flight
+			for _, s := range a.k.W.Services {
+				if s.Name == svc && s.Mock != nil {
+					m = s.Mock()
+				}
+			}
+		}
 		if m == nil {
 			return nil, errors.New("sim: no mock for service " + svc)
 		}
